@@ -7,6 +7,9 @@ pub(crate) fn read_definition<R>(reader: &mut R, definition: &mut Definition) ->
 where
     R: BufRead,
 {
+    #[cfg(kani)]
+    use self::verif_kani::memchr3_model as memchr3;
+    #[cfg(not(kani))]
     use memchr::memchr3;
 
     const NAME_PREFIX: u8 = b'@';
@@ -77,6 +80,10 @@ where
 
     Ok(len)
 }
+
+#[cfg(kani)]
+#[path = "/verif/harness/fastq/reader_definition.rs"]
+mod verif_kani;
 
 #[cfg(test)]
 mod tests {
